@@ -566,6 +566,11 @@ def run_sequence(ctx: Ctx, out: Outcome, base_repo: pathlib.Path, hdesc: dict, s
             st["err"] = err_kind(res["seen"])
             st["trace"] = [canon_cmd(w, hd["subdir"]) for w in res["calls"]]
             st["ncommits"] = len(ids.map)
+            st["newcommits"] = []
+            for sha in shim.commit_shas:
+                info = commit_info(repo, sha)
+                st["newcommits"].append([ids.of(info["parents"][0]) if info["parents"] else None,
+                                         sorted([p, list(b)] for p, b in tree_of(repo, sha).items())])
             impl_steps.append(st)
             out.hit("outcome:" + (st["err"] or ("dry" if txn.get("dry_run") else "ok")))
             if res["failed"]:
